@@ -2,9 +2,13 @@
    Conc/Lin.v: for ANY sequential step function and EVERY schedule of threads whose calls each run one critical
    section under one lock; Conc/MemfsConc.v instantiates it with the Memfs mirror's step (Memfs/Step.v).
    Conc/LockTable.v: the table regenerated from the source on every run shows that discipline for every
-   single-step operation of the statement. *)
-From Coq Require Import List String.
-From RV Require Import Base.Str Path.Helpers Path.Expand Memfs.State Memfs.Step Conc.Lin Conc.MemfsConc Conc.LockTable Gen.Locks.
+   single-step operation of the statement.  Completeness: once every thread has finished, every call of every program is
+   in the linearization exactly once (lin_complete, lin_once).  Conc/Appends.v: for programs that append to one existing
+   regular file the final content, under any schedule, is the old content followed by every appended chunk in the order of
+   the critical sections - each exactly once. *)
+From stdpp Require Import gmap.
+From Coq Require Import List String NArith.
+From RV Require Import Base.Str Path.Helpers Path.Expand Memfs.State Memfs.Ops Memfs.Step Memfs.Wf Conc.Lin Conc.MemfsConc Conc.LockTable Conc.Appends Gen.Locks.
 Import ListNotations.
 
 (* the calls, in the order of their critical sections, replayed sequentially give the observed results and final state *)
@@ -55,3 +59,27 @@ Print Assumptions C04_single_step_discipline.
 Theorem C04_no_method_relocks : never_nested = true.
 Proof. exact no_method_relocks. Qed.
 Print Assumptions C04_no_method_relocks.
+
+(* once every thread has finished, every call of every program is in the linearization ... *)
+Theorem C04_lin_complete : forall env (s0 : mfs) (progs : list (list op)) sched,
+  let c := run _ _ _ (mstep env) (init _ _ _ s0 progs) sched in
+  (forall t th, nth_error (thr _ _ _ c) t = Some th -> todo _ _ th = [] /\ ph _ _ th = Idle _) ->
+  forall t i o, nth_error (nth t progs []) i = Some o -> exists x, In x (lin _ _ _ c) /\ c_t _ _ x = t /\ c_i _ _ x = i /\ c_o _ _ x = o.
+Proof. exact memfs_lin_complete. Qed.
+Print Assumptions C04_lin_complete.
+
+(* ... exactly once *)
+Theorem C04_lin_once : forall env (s0 : mfs) (progs : list (list op)) sched x y,
+  let c := run _ _ _ (mstep env) (init _ _ _ s0 progs) sched in
+  In x (lin _ _ _ c) -> In y (lin _ _ _ c) -> c_t _ _ x = c_t _ _ y -> c_i _ _ x = c_i _ _ y -> x = y.
+Proof. exact memfs_lin_once. Qed.
+Print Assumptions C04_lin_once.
+
+(* every concurrent append to one file is present in the final content, in the order of the critical sections *)
+Theorem C04_concurrent_appends : forall env (s0 : mfs) (progs : list (list op)) (sched : list nat) s p f old,
+  WF s0 -> resolve env s0 s = inl p -> m_ents s0 !! p = Some f -> e_file f = true -> e_link f = false -> e_dir f = false -> m_data s0 !! p = Some old ->
+  Forall (Forall (is_append_to s)) progs ->
+  let c := run _ _ _ (mstep env) (init _ _ _ s0 progs) sched in
+  m_data (st _ _ _ c) !! p = Some (old ++ List.concat (map chunk (map (c_o _ _) (lin _ _ _ c)))).
+Proof. exact concurrent_appends. Qed.
+Print Assumptions C04_concurrent_appends.
